@@ -31,11 +31,11 @@ type simRegion struct {
 	id          uint64
 	name        []byte
 	addr        string
-	faults      []string // exception kinds answered to the next requests (probes included)
+	faults      []string            // exception kinds answered to the next requests (probes included)
 	keyFaults   map[string][]string // per row key: exception kinds answered to its next requests
-	bounce      []string // hbase:meta reports these addresses in turn; all of them host the region
-	staleAddr   string   // hbase:meta still reports this previous location …
-	staleN      int      // … for this many more lookups
+	bounce      []string            // hbase:meta reports these addresses in turn; all of them host the region
+	staleAddr   string              // hbase:meta still reports this previous location …
+	staleN      int                 // … for this many more lookups
 }
 
 func (r *simRegion) fq() []byte {
